@@ -159,7 +159,7 @@ func genScenario(seed int64, nblocks int) conc.Scenario {
 				if i < nout-1 {
 					a = 1 + g.rnd.Int63n(rest-int64(nout-i))
 					if g.rnd.Intn(6) == 0 {
-						a = []int64{1, 99999, 100000, 100001}[g.rnd.Intn(4)]
+						a = []int64{1, 999, 1000, 50000, 99999, 100000, 100001}[g.rnd.Intn(7)]
 						if a >= rest-int64(nout-i) {
 							a = 1
 						}
@@ -296,6 +296,8 @@ func cmdRecord(args []string) {
 		if *bal {
 			common.BlockChain = n.Ch
 			wallet.Disable()
+			curMinBal = minBal
+			common.CFG.AllBalances.MinValue = curMinBal
 			wallet.LoadBalancesFromUtxo()
 		}
 		enc.Encode(map[string]interface{}{"ev": "reset", "b": 0, "acc": false, "later": false, "tip": 0, "unew": []conc.UtxoEnt{}, "gone": []int{}})
@@ -329,6 +331,9 @@ func cmdRecord(args []string) {
 			if *bal {
 				if rnd.Intn(7) == 0 { // the index rebuilt from the populated set must agree as well
 					wallet.Disable()
+					if rnd.Intn(2) == 0 {
+						toggleMinBal() // ... also under the other dust limit
+					}
 					wallet.LoadBalancesFromUtxo()
 				}
 				if f := checkBalances(n, ents); f != nil {
